@@ -321,6 +321,14 @@ class RendezvousConnector:
         err = msg["error"]
         orig = msg["orig"]
         self._B.rx_error(err, orig)
+        # If the server refuses our "close" or "release" (e.g. the mailbox
+        # became crowded), the "closed"/"released" response we are waiting
+        # for will never arrive: stop waiting, so close() can finish.
+        orig_type = orig.get("type") if isinstance(orig, dict) else None
+        if orig_type == "close":
+            self._M.rx_closed()
+        elif orig_type == "release":
+            self._N.rx_released()
 
     def _response_handle_welcome(self, msg):
         self._B.rx_welcome(msg["welcome"])
